@@ -1,5 +1,5 @@
 """C14 — EnumMessage returns exactly the per-variant message, detail, docs and spellings."""
-from vlib.defs import Item, Variant, Field, EM, ser, tos, msg, det, doc, aci, DISABLED
+from vlib.defs import Item, Variant, Field, EM, ser, tos, msg, det, doc, aci, DISABLED, raw
 from vlib.run import Corpus
 from vlib import structs as T
 from vlib import gen as G
@@ -65,6 +65,12 @@ def build_corpus(tier, rng):
             for d in rng.choice(DOCS):
                 v.metas.insert(rng.randint(0, len(v.metas)), doc(d))
         items.append(("random", it))
+    # attributes strum does not read, interleaved with the ones it does (#[doc(hidden)] is a doc attribute WITHOUT text)
+    items.append(("raw-attrs", Item("E", [
+        Variant("A", "unit", [], [raw("doc(hidden)"), msg("m-a"), doc(" doc a"), det("d-a")]),
+        Variant("B", "tuple", [Field("u8")], [doc(" first"), raw('doc(alias = "bee")'), doc(" second"), msg("m-b"), ser("bee")]),
+        Variant("C", "unit", [], [raw("allow(dead_code)"), raw("doc(hidden)"), DISABLED, msg("never")]),
+        Variant("D", "named", [Field("u8", "x")], [msg("m-d"), raw("doc(hidden)"), det("d-d"), doc(" tail doc")])])))
     items.append(("case-spellings", Item("E", [Variant("A", "unit", [], [ser("mb"), tos("MB"), aci(False)]), Variant("B", "tuple", [Field("u8")], [ser("kb"), ser("Kb"), ser("KB"), aci(True, explicit=False)]),
                                                Variant("C", "unit", [], [DISABLED, ser("x"), ser("X"), det("never"), msg("never")])])))
     for fam, it in items:
